@@ -41,7 +41,7 @@ REQUIRED = dict(monitors=['restricted-equals-full', 'restricted-grid-is-subset',
                          'sliding-window-same-size', 'request:own-full', 'request:foreign-same-ends-and-count',
                          'request:foreign-shifted-same-count', 'request:own-sub-range', 'request:foreign-random',
                          'requested-order:ascending', 'requested-order:descending', 'requested-order:shuffled',
-                         'emission:same-size-window'])
+                         'emission:same-size-window', 'emission:star-written-between-evaluations'])
 CUT = math.exp(-10.0)
 
 
@@ -270,6 +270,13 @@ def wl_emission(ctx, rng):
     # further windows on the SAME model: windows of equal length at other places of the native grid (anything keyed
     # on the number of points alone -- the stellar spectrum, a per-grid buffer -- would go stale), then the full grid
     if len(wf) >= 12:
+        if rng.random() < 0.5:
+            # the star is given another temperature through its public setter BETWEEN two evaluations of the same
+            # grid (the setter route, as opposed to the constructor): the second evaluation is the new reference
+            run()
+            model.star.temperature = float(snf['Tstar'] * rng.uniform(0.7, 1.3))
+            wf, sf, snf, rf = run()
+            ctx.observe('emission:star-written-between-evaluations')
         wlen = int(rng.integers(3, max(4, len(wf) // 3)))
         starts = rng.permutation(np.arange(1, len(wf) - wlen - 1))[:int(rng.integers(2, 5))]
         for i0 in starts:
